@@ -151,7 +151,7 @@ fn heavy_noise(max_pair: u32) -> BoxedStrategy<Noise> {
     // reply-eliciting kinds dominate
     prop_oneof![
         4 => (proptest::collection::vec(traffic::gv_item(max_pair), 0..7), prop_oneof![3 => Just(0u8), 1 => 1u8..8], prop_oneof![2 => Just(0u8), 1 => any::<u8>()])
-            .prop_map(|(items, trunc, pad)| Noise::GetValues { items, trunc, pad }),
+            .prop_map(|(items, trunc, pad)| Noise::GetValues { items, trunc, long: trunc % 3 == 1 || pad % 7 == 3, pad }),
         3 => (any::<u8>(), prop_oneof![Just(0u16), Just(1), any::<u16>()], prop_oneof![3 => 0u16..=30, 1 => 30u16..=700], prop_oneof![2 => Just(0u8), 1 => any::<u8>()])
             .prop_map(|(ty, id, len, pad)| Noise::UnknownType { ty, id, len, pad }),
         2 => (traffic::id_delta(), prop_oneof![2 => 1u16..=3, 1 => prop_oneof![Just(0u16), Just(4), any::<u16>()]], any::<u8>(), prop_oneof![2 => Just(0u8), 1 => any::<u8>()])
@@ -216,8 +216,8 @@ pub fn property() -> Property {
         subs: vec![prop_sub(
             "replies",
             "traffic with reply-eliciting records at every position class: idle (before BeginRequest), inside abandoned preambles (BeginRequest+Params+same-id AbortRequest with body/padding), between Params records, between/inside stream phases; GetValues bodies from a grammar (known, unknown, repeated, non-UTF-8, value-carrying names, truncated trailing pair, empty body), all unknown type bytes, foreign BeginRequest incl. id 0 and unknown roles; 1-byte reads + 2 generated chunkings for the request parser, generated caller schedule with partial consume_output for the stream parser; non-trivial = >=3 replies in the history or a GetValues body split across parse calls; distinct = hash of the case",
-            40_000,
-            1_200_000,
+            80_000,
+            2_000_000,
             |_| case_strategy(),
             test,
         )],
